@@ -176,7 +176,8 @@ func (p *populator) fill(v reflect.Value, depth int) {
 			}
 			return
 		}
-		sl := reflect.MakeSlice(t, n, n+int(p.next()%2))
+		// (spare capacity 0..3: a copy that merely re-slices or grows in place shares the backing array)
+		sl := reflect.MakeSlice(t, n, n+int(p.next()%4))
 		for i := 0; i < n; i++ {
 			p.fill(sl.Index(i), depth-1)
 		}
